@@ -257,6 +257,8 @@ def configs(tier, seed):
     cfgs.append(Config('mono n_wav=3 window [min,max] nm=1 n_ap=1', h_mono(3, 1, 1, 'both', (0,)), 3000))
     cfgs.append(Config('mono n_wav=3 window min only nm=2 n_ap=2', h_mono(3, 2, 2, 'min', (0, 1)), 3000))
     cfgs.append(Config('mono n_wav=4 window max only nm=1 n_ap=1', h_mono(4, 1, 1, 'max', (0,)), 3000))
+    cfgs.append(Config('mono n_wav=4 window min only nm=1 n_ap=1', h_mono(4, 1, 1, 'min', (0,)), 3000))
+    cfgs.append(Config('mono n_wav=4 window [min,max] nm=1 n_ap=2', h_mono(4, 2, 1, 'both', (0,)), 3000))
     if not q:
         cfgs.append(Config('mono n_wav=4 window [min,max] nm=2 n_ap=1', h_mono(4, 1, 2, 'both', (1, 0)), 6000))
         cfgs.append(Config('mono n_wav=5 window [min,max] nm=1 n_ap=1', h_mono(5, 1, 1, 'both', (0,)), 6000))
